@@ -24,3 +24,4 @@ python3 /verif/translator/fdiff.py /repo /verif/lean/Tv/GenFd.lean >/dev/null
 python3 /verif/translator/finals.py /repo /verif/lean/Tv/GenFin.lean >/dev/null
 python3 /verif/translator/quant.py /repo /verif/lean/Tv/GenQuant.lean >/dev/null
 python3 /verif/translator/ranks.py /repo /verif/lean/Tv/GenRank.lean >/dev/null
+python3 /verif/translator/reads.py /repo /verif/lean/Tv/GenReads.lean >/dev/null
